@@ -4,6 +4,7 @@ import ChythonModel.Proofs.C07Product
 import ChythonModel.Proofs.C07Compile
 import ChythonModel.Proofs.C07Stack
 import ChythonModel.Proofs.C07Top
+import ChythonModel.Proofs.C07Multi3
 /-!
 # C07 — substructure search returns exactly the set of valid embeddings
 
@@ -299,6 +300,102 @@ theorem filter_one_per_image_set (ms : List Dict) :
   · simp at hk
   · exact h
 
+/-- **`iso_multi_exact`**: the same for a pattern with several components (branch `else:` — `permutations` of the target
+    components, one generator per pair, `lazy_product`, dict merge): the result contains exactly the dicts of the maps
+    satisfying the full specification `IsEmbedding` — in particular different pattern components land in different target
+    components, and a scope that covers target components only partly is respected per component. -/
+theorem iso_multi_exact (p : Problem) (hq : p.q.WF = true) (ht : p.t.WF = true)
+    (hpart : checkComponents p.t p.tComps = true) (hb : BondSymm p.bondOk) (comps : List (List Step)) (cl : Closures)
+    (hcq : compileQuery p.q = some (comps, cl)) (hne : comps ≠ []) (hk : ∀ lq, comps ≠ [lq]) :
+    ∃ r, isoUnfiltered p comps cl = some r ∧
+      ∀ m, m ∈ r ↔ ∃ f, m = asDict (comps.flatten.map (·.front)) f ∧
+        IsEmbedding p.q p.t (scopeFn p.scope) p.atomOk p.bondOk f := by
+  have hc := compile_covers p.q hq comps cl hcq
+  have hQ := wf_ok p.q hq
+  have hT := wf_ok p.t ht
+  have hP := checkComponents_sound p.t p.tComps hpart
+  obtain ⟨hne', hconn⟩ := partition_extra p.t hT.symm p.tComps hpart
+  have hF := compsFacts_of p.q comps cl hc
+  have htnd : p.tComps.Nodup := nodup_of_pairwise_disjoint _ hP.disjoint hne'
+  have hx : ∀ lq ∈ comps, ∀ cand m, m ∈ recMapping (mkEnv p cl lq (restrict p.scope cand)) ↔
+      ∃ f, m = asDict (frontsOf lq) f ∧
+        EmbedsComp p.q p.t (frontsOf lq) (fun n => (restrict p.scope cand).contains n) p.atomOk p.bondOk f :=
+    fun lq hlq cand m => (component_exact p.q p.t comps cl hq ht hc lq hlq _ p.atomOk p.bondOk hb).1 m
+  have hgm : ∀ lq ∈ comps, ∀ cand, getMapping (mkEnv p cl lq (restrict p.scope cand)) =
+      some (recMapping (mkEnv p cl lq (restrict p.scope cand))) :=
+    fun lq hlq cand => stack_refines_rec p.q p.t comps cl hq ht hc lq hlq _ p.atomOk p.bondOk hb
+  have hcl : ∀ lq ∈ comps, ∀ u ∈ frontsOf lq, ∀ v ∈ p.q.nbrs u, v ∈ frontsOf lq :=
+    fun lq hlq => comp_closed p.q cl lq (hF.ok lq hlq)
+  have hflat : comps.flatten.map (·.front) = (comps.map frontsOf).flatten := by
+    rw [List.map_flatten]; rfl
+  -- the merged dict of a tuple
+  have hmerge : ∀ (cands : List (List Nat)) (f : Nat → Nat), cands.length = comps.length →
+      mergeD ((comps.zip cands).map fun pr => asDict (frontsOf pr.1) f) = asDict (comps.flatten.map (·.front)) f := by
+    intro cands f hl
+    have h1 : ((comps.zip cands).map fun pr => asDict (frontsOf pr.1) f) =
+        (comps.map frontsOf).map fun C => asDict C f := by
+      rw [List.map_map]
+      have : (comps.zip cands).map (·.1) = comps := List.map_fst_zip (by omega)
+      conv_rhs => rw [← this]
+      rw [List.map_map]
+      rfl
+    rw [h1, hflat]
+    apply mergeD_asDict
+    · intro h; exact hne (List.map_eq_nil_iff.1 h)
+    · intro C hC
+      obtain ⟨lq, hlq, rfl⟩ := List.mem_map.1 hC
+      exact hF.nodup lq hlq
+    · rw [List.pairwise_map]; exact hF.disj
+  refine ⟨_, isoUnfiltered_multi p cl comps hne hk hgm, ?_⟩
+  intro m
+  rw [List.mem_flatMap]
+  constructor
+  · rintro ⟨cands, hcands, hm⟩
+    obtain ⟨hl, hnd, hsub⟩ := ((permutations_spec comps.length p.tComps htnd).1 cands).1 hcands
+    simp only [tupleResult, List.mem_map] at hm
+    obtain ⟨ms, hms, rfl⟩ := hm
+    rw [lazyProduct_mem, glue_tuple p cl comps cands ms hx hcl hF.disj] at hms
+    obtain ⟨f, hall, rfl⟩ := hms
+    exact ⟨f, hmerge cands f hl, allEmb_sound p cl comps hF hQ.symm hP cands hl hnd hsub f hall⟩
+  · rintro ⟨f, rfl, isE⟩
+    obtain ⟨cands, hl, hnd, hsub, hall⟩ := allEmb_complete p cl comps hF hQ.symm hP hconn f isE
+    refine ⟨cands, ((permutations_spec comps.length p.tComps htnd).1 cands).2 ⟨hl, hnd, hsub⟩, ?_⟩
+    simp only [tupleResult, List.mem_map]
+    refine ⟨(comps.zip cands).map fun pr => asDict (frontsOf pr.1) f, ?_, hmerge cands f hl⟩
+    rw [lazyProduct_mem, glue_tuple p cl comps cands _ hx hcl hF.disj]
+    exact ⟨f, hall, rfl⟩
+
+/-- **`get_mapping_exact`** — the property's first sentence for the whole unfiltered call, any number of pattern
+    components: for every well-formed non-empty pattern and well-formed target (with accepted `connected_components`), every
+    scope and every direction-independent compatibility relation, `Isomorphism._get_mapping(automorphism_filter=False)`
+    terminates normally and returns exactly the dicts of the maps satisfying `IsEmbedding`. -/
+theorem get_mapping_exact (p : Problem) (hq : p.q.WF = true) (ht : p.t.WF = true)
+    (hpart : checkComponents p.t p.tComps = true) (hb : BondSymm p.bondOk) (hatoms : p.q.atoms ≠ [])
+    (haf : p.autoFilter = false) :
+    ∃ comps cl r, compileQuery p.q = some (comps, cl) ∧ isoGetMapping p = some r ∧
+      ∀ m, m ∈ r ↔ ∃ f, m = asDict (comps.flatten.map (·.front)) f ∧
+        IsEmbedding p.q p.t (scopeFn p.scope) p.atomOk p.bondOk f := by
+  obtain ⟨comps, cl, hcq⟩ := compile_total p.q hq
+  have hc := compile_covers p.q hq comps cl hcq
+  have hne : comps ≠ [] := by
+    intro h
+    obtain ⟨a, ha⟩ := List.exists_mem_of_ne_nil _ hatoms
+    have := hc.cover a ha
+    rw [h] at this
+    simp at this
+  by_cases hk : ∃ lq, comps = [lq]
+  · obtain ⟨lq, rfl⟩ := hk
+    obtain ⟨r, hr, _, hmem⟩ := iso_single_exact p hq ht hpart hb lq cl hcq
+    refine ⟨[lq], cl, r, hcq, ?_, ?_⟩
+    · unfold isoGetMapping
+      simp [hcq, hr, haf]
+    · simpa using hmem
+  · have hk' : ∀ lq, comps ≠ [lq] := fun lq h => hk ⟨lq, h⟩
+    obtain ⟨r, hr, hmem⟩ := iso_multi_exact p hq ht hpart hb comps cl hcq hne hk'
+    refine ⟨comps, cl, r, hcq, ?_, hmem⟩
+    unfold isoGetMapping
+    simp [hcq, hr, haf]
+
 /-- the filtered call: `isoGetMapping` with `automorphism_filter=True` keeps exactly one of those embeddings per image set -/
 theorem iso_single_filtered (p : Problem) (hq : p.q.WF = true) (ht : p.t.WF = true)
     (hpart : checkComponents p.t p.tComps = true) (hb : BondSymm p.bondOk) (lq : List Step) (cl : Closures)
@@ -414,5 +511,13 @@ example : checkComponents tMixed [[10, 11, 12], [20, 21, 22, 23]] = true := by d
 example : (isoGetMapping (pMixed none)).map List.length = some 4 := by decide
 example : (isoGetMapping (pMixed (some [20, 21, 22]))).map List.length = some 2 := by decide
 example : (isoGetMapping (pMixed (some []))).map List.length = some 0 := by decide
+
+/-- a two-component pattern (two isolated atoms) on the two-component target: 3·4·2 = 24 embeddings, the two atoms always
+    in different target components; with the scope `{10, 20, 21}` exactly 2·1·2 = 4 of them remain -/
+def pTwo (scope : Option (List Nat)) : Problem :=
+  { q := ⟨[1, 2], [(1, []), (2, [])]⟩, t := tMixed, tComps := [[10, 11, 12], [20, 21, 22, 23]], scope := scope,
+    autoFilter := false, atomOk := fun _ _ => true, bondOk := fun _ _ _ _ => true }
+example : (isoGetMapping (pTwo none)).map List.length = some 24 := by decide
+example : (isoGetMapping (pTwo (some [10, 20, 21]))).map List.length = some 4 := by decide
 
 end ChythonModel.Props.C07
